@@ -543,6 +543,17 @@ class ExpressionEngine:
             char_escape = self._char_escape
 
         def compiler(target, engine, result_type=None, *args):
+            if char_escape and result_type == "text":
+                # The value is escaped below; the parts of a nested
+                # expression (string: inside ${...}) must not be
+                # escaped on their own, too.
+                engine = ExpressionEngine(
+                    engine._parser,
+                    default=engine._default,
+                    default_marker=engine._default_marker,
+                    literal_false=engine._literal_false,
+                )
+
             stmts = expression(target, engine)
 
             if result_type is not None:
